@@ -10,6 +10,7 @@ import (
 	"fmt"
 	"io"
 	"os"
+	"path/filepath"
 	"sync"
 	"sync/atomic"
 	"time"
@@ -112,6 +113,7 @@ type DurEv struct {
 	Kind    string // "db" | "walsync"
 	Ops     []DBOp
 	WalSize int64 // for walsync: size of the WAL head file after the sync
+	WalFiles map[string]int64 // for walsync: size of every file of the WAL group after the sync (rotation)
 	Desc    string
 }
 
@@ -275,12 +277,21 @@ func (w *RecWAL) syncPoint(desc string) {
 		return
 	}
 	var sz int64 = -1
+	var files map[string]int64
 	if w.path != "" {
 		if fi, err := os.Stat(w.path); err == nil {
 			sz = fi.Size()
 		}
+		if ents, err := os.ReadDir(filepath.Dir(w.path)); err == nil && len(ents) > 1 {
+			files = map[string]int64{}
+			for _, e := range ents {
+				if fi, err := e.Info(); err == nil && !e.IsDir() {
+					files[e.Name()] = fi.Size()
+				}
+			}
+		}
 	}
-	w.dur.add(DurEv{Kind: "walsync", WalSize: sz, Desc: desc})
+	w.dur.add(DurEv{Kind: "walsync", WalSize: sz, WalFiles: files, Desc: desc})
 }
 
 func (w *RecWAL) record(m consensus.WALMessage, own bool) {
